@@ -61,7 +61,7 @@ PROP = dict(
         "Octo.C08.table_indices", "Octo.C08.table_out_wf", "Octo.C08.table_params", "Octo.C08.table_kinds_within",
         "Octo.C08.table_tyfn_kinds", "Octo.C08.nonnull_output_never_returns_null", "Octo.C08.typeFn_probes_agree",
         "Octo.C08.descriptor_obligation", "Octo.C08.typing_sound", "Octo.C08.typing_sound_generated",
-        "Octo.C08.null_only_if_admitted", "Octo.C08.assertion_complete", "Octo.C08.aggTable_kinds",
+        "Octo.C08.null_only_if_admitted", "Octo.C08.assertion_complete", "Octo.C08.covered_relayout_conforms", "Octo.C08.aggTable_kinds",
         "Octo.C08.aggregate_obligation", "Octo.C08.aggregate_sound", "Octo.C08.C08_refuted", "Octo.C08.C08_partial",
         "Octo.C08.C08_partial_generated", "Octo.C08.shipped_field_access_unsound",
         "Octo.C08.shipped_aggregate_overload_refuted", "Octo.C08.shipped_int_of_string_refuted"],
@@ -86,8 +86,10 @@ PROP = dict(
         "constants match the type Value.Type() reports for them and that type is well formed (constsOk): true of every "
         "scalar constant, i.e. of everything SQL text can denote; without it the statement is refuted (C08_refuted, C10 "
         "finding typeof-list-shape-mismatch)",
-        "COALESCE theorem only for struct-, tuple- and Any-free argument types (coalescePlain); COALESCE over objects and "
-        "tuples (ObjectLayoutFixer) is covered by the correspondence run and the oracle only",
+        "COALESCE: a decidable side condition per COALESCE node (coalesceOk): the result type is Any, or all argument types "
+        "are struct/tuple/Any-free, or result and argument types are in TypeSum's normal form (normB) and the result type "
+        "covers every argument type (coversB); that TypeSum always covers its operands is not proved, the oracle evaluates "
+        "the condition on every typed tree (fails only for Any nested inside a tuple type: 12 of 28.6 k thorough lines)",
         "variable types are well formed (CtxWf: unions with one plain alternative per TypeID, as TypeSum builds them)",
         "NOT modelled (the model prints `?`, the oracle still judges the implementation's value): float arithmetic, math.*, "
         "regexps (LIKE, ~, ~*), parse_time, time_from_unix, now, non-ASCII upper/lower, float sums/averages",
@@ -106,9 +108,11 @@ PROP = dict(
                "discharged for the REAL table, regenerated from /repo on every run by reflection + go/ast "
                "(descriptor_obligation, nonnull_output_never_returns_null, table_kinds_within by `decide`); NULL appears "
                "only where the type admits it. The full statement is refuted for arbitrary constants (C08_refuted) and "
-               "proved with the two hypotheses named in `assumptions` (C08_partial). Model tied to the code by an exact "
+               "proved with the two hypotheses named in `assumptions` (C08_partial); COALESCE over objects and tuples goes "
+               "through C13's layout-fixer theorem and a new coverage relation (covered_relayout_conforms). Model tied to the code by an exact "
                "differential run of typed trees and per-node values.",
-    level_note="Partial: COALESCE over object/tuple types and whole-query columns are outside the theorems (correspondence only). "
+    level_note="Partial: whole-query columns (plan node schemas) are outside the theorems (CLI oracle lines only); the COALESCE rule "
+               "carries a decidable side condition that the oracle evaluates on every line. "
                "Trusted: Lean kernel; axioms propext, Classical.choice, Quot.sound; the correspondence harness and the go/ast "
                "result-kind extraction; Go runtime.",
     technique="Lean 4 proof (induction on expressions) + regenerated descriptor table + model/implementation correspondence",
